@@ -573,3 +573,24 @@ Proof.
     [exact ex_empty_name|exact ex_name_129|exact ex_reserved_1|exact ex_reserved_2|exact ex_typed_name|
      exact ex_typed_name_raises|exact ex_tag_256|exact ex_username_65536| | ]; apply ex_body_2p24; assumption.
 Qed.
+
+(* Decode-then-encode reproduces the bytes only for bytes that encode produced (theorem reencode): on ARBITRARY input
+   the decoder is not injective.  Witnesses: (1) a table name spelled out as a custom name (0x07 "text/css") is
+   re-encoded as its id byte 0x9E; (2) a last entry that announces 5 body bytes but carries 2 is accepted and
+   re-encoded with length 2. *)
+Lemma reencode_arbitrary_refuted :
+  (exists bs items, cm_decode bs = Some items /\ exists bs', cm_encode items = Some bs' /\ bs' <> bs /\
+                    bs = x07 :: ascii "text/css" ++ [x00; x00; x01; x61]) /\
+  (exists bs items, cm_decode bs = Some items /\ exists bs', cm_encode items = Some bs' /\ bs' <> bs /\
+                    bs = [x00; x61; x00; x00; x05; x62; x63]).
+Proof.
+  split.
+  - eexists. eexists. split; [|eexists; split; [|split; [|reflexivity]]].
+    + vm_compute. reflexivity.
+    + vm_compute. reflexivity.
+    + vm_compute. discriminate.
+  - eexists. eexists. split; [|eexists; split; [|split; [|reflexivity]]].
+    + vm_compute. reflexivity.
+    + vm_compute. reflexivity.
+    + vm_compute. discriminate.
+Qed.
